@@ -493,6 +493,36 @@ func runC19(p *Prog, r *Report) {
 				}
 			})
 			r.Check(okMask, fnName(rt), "strict-reader-masked-on-copy", "StrictReader is cleared on a private copy of the options (damaged blocks are skipped, not fatal, during the scan; the caller's options are untouched)", why, p.Pos(rt.Pos()))
+			// clearing one flag only means "tolerant reads" if the field was not 0 before: 0 is read
+			// as DefaultStrict, which contains StrictReader (and the block-checksum flag). The copy
+			// handed out by dupOptions must therefore have its zero Strict replaced by DefaultStrict
+			// on EVERY path — also for nil options.
+			if du := resolveFn(p, r, "leveldb", "dupOptions"); du != nil {
+				r.Site(1)
+				zeroTest := func(in ssa.Instruction) bool {
+					b, ok := in.(*ssa.BinOp)
+					if !ok || (b.Op != token.EQL && b.Op != token.NEQ) {
+						return false
+					}
+					isZ := func(v ssa.Value) bool { k, isC := constInt(v); return isC && k == 0 }
+					return (isFieldLoad(b.X, "leveldb/opt.Options", "Strict") && isZ(b.Y)) || (isFieldLoad(b.Y, "leveldb/opt.Options", "Strict") && isZ(b.X))
+				}
+				setsDefault := func(in ssa.Instruction) bool {
+					st, ok := in.(*ssa.Store)
+					if !ok || !isFieldAddr(st.Addr, "leveldb/opt.Options", "Strict") {
+						return false
+					}
+					k, isC := constInt(st.Val)
+					return isC && k == strictConst(p, "DefaultStrict")
+				}
+				if countInstr(du, setsDefault) == 0 {
+					r.Fail(fnName(du), "zero-strict-normalised", "dupOptions replaces a zero Strict by DefaultStrict on every path", "no store Strict = DefaultStrict", p.Pos(du.Pos()), nil)
+				} else if w := findPath(entryPoint(du), nil, orPred(zeroTest, setsDefault), isReturn); w != nil {
+					r.Fail(fnName(du), "zero-strict-normalised", "dupOptions replaces a zero Strict by DefaultStrict on every path", "a path returns options whose Strict was never tested for 0 (e.g. for nil options): recoverTable then clears StrictReader from 0, the result 0 is read as DefaultStrict and the recovery scan is strict — it stops at the first damaged block and drops the undamaged blocks behind it", p.posOfLast(w, isReturn), p.renderPath(w))
+				} else {
+					r.OK(fnName(du), "zero-strict-normalised", "dupOptions replaces a zero Strict by DefaultStrict on every path")
+				}
+			}
 			ordPrecede(p, r, rt, "mask-before-scan", nil, func(in ssa.Instruction) bool {
 				st, ok := in.(*ssa.Store)
 				return ok && isFieldAddr(st.Addr, "leveldb/opt.Options", "Strict")
